@@ -343,6 +343,28 @@ def rule_mono(ctx):
                f'node that was never created', f.node, f.module)
 
 
+def rule_pitch_chain(ctx):
+    ctx.rule('C14.keys', 'degree/note -> midinote: key = degree_to_key(degree + mtranspose) (or the given note), plus gtranspose and root, '
+                         'divided by the steps per octave of the tuning, plus octave - 5, times 12 * log2(octave ratio), plus 60; both paths '
+                         'share the chain after their first line; freq = midicps(midinote [+ ctranspose]) then * harmonic + detune')
+    pk = ctx.repo.cls('sc3.seq.event:PitchKeys')
+    mod = pk.module
+    a = [norm(x) for x in U.body_nodoc(pk.methods['_midinote_from_degree'].node)]
+    b = [norm(x) for x in U.body_nodoc(pk.methods['_midi_from_note'].node)]
+    want_tail = ['ret = ret / scale.tuning.spo + self(\'octave\') - 5.0', 'ret = ret * (12.0 * bi.log2(scale.tuning.octave_ratio)) + 60', 'return ret']
+    ok = a == ["scale = self('scale')", "ret = scale.degree_to_key(self('degree') + self('mtranspose'))", "ret = ret + self('gtranspose') + self('root')"] + want_tail
+    ctx.ob('C14.keys', f'{pk.fq}._midinote_from_degree:chain', ok, f'degree chain must be the documented one; found {a}', pk.methods['_midinote_from_degree'].node, mod)
+    nb = [x.replace("self('scale')", 'scale') for x in b]
+    ok = nb == ["ret = self['note'] + self('gtranspose') + self('root')"] + want_tail
+    ctx.ob('C14.keys', f'{pk.fq}._midi_from_note:chain', ok, f'note chain must equal the degree chain after its first line; found {b}', pk.methods['_midi_from_note'].node, mod)
+    checks = {'_detuned_freq': "return self('freq') * self('harmonic') + self('detune')", '_transposed_midinote': "return self('midinote') + self('ctranspose')",
+              '_freq_from_midinote': 'return bi.midicps(self._transposed_midinote())', '_freq_from_degree': 'return bi.midicps(self._midinote_from_degree())',
+              '_midinote_from_freq': 'return bi.cpsmidi(self._detuned_freq())'}
+    for mn, want in checks.items():
+        f = pk.methods[mn]
+        ctx.ob('C14.keys', f'{f.fq}', full(f.node).endswith(want), f'{mn} must be `{want}`', f.node, mod)
+
+
 def rule_par(ctx):
     ctx.rule('C14.par', 'Ppar keeps a local clock: after every event it yields, `now` advances to exactly the time whose distance from '
                         '`now` was emitted as that event\'s delta, and that time was read from the queue in the same block')
@@ -421,6 +443,7 @@ def rule_par(ctx):
 
 def run(ctx):
     rule_accum(ctx)
+    rule_pitch_chain(ctx)
     rule_mono(ctx)
     rule_scale(ctx)
     rule_par(ctx)
@@ -432,6 +455,10 @@ def run(ctx):
 
 
 MUTANTS = [
+    dict(rule='C14.keys', name='octave offset of the degree path is 4', file='sc3/seq/event.py',
+         old="        ret = ret / scale.tuning.spo + self('octave') - 5.0\n        ret = ret * (12.0 * bi.log2(scale.tuning.octave_ratio)) + 60\n        return ret\n\n    def _midinote_from_freq", new="        ret = ret / scale.tuning.spo + self('octave') - 4.0\n        ret = ret * (12.0 * bi.log2(scale.tuning.octave_ratio)) + 60\n        return ret\n\n    def _midinote_from_freq"),
+    dict(rule='C14.keys', name='detune multiplied instead of added', file='sc3/seq/event.py',
+         old="        return self('freq') * self('harmonic') + self('detune')", new="        return self('freq') * (self('harmonic') + self('detune'))"),
     dict(rule='C14.keys', name='(fix reverted) degree_to_key adds the tuning index, not the tuning value', file='sc3/seq/scale.py',
          old="self.tuning[self[int(degree) % l]]", new="self[int(degree) % l]"),
     dict(rule='C14.rest', name='(fix reverted) Pmono latches the node id of a rest', file='sc3/seq/patterns/eventpatterns.py',
